@@ -297,8 +297,8 @@ class Scanner:
                         ty = re.sub(r"^&(mut )?", "", self.b.local_ty(rv["place"]["l"]))
                         if v is not None and v[0] == "opt" and len(v) > 2 and ty.startswith("std::option::Option<"):
                             dmap[s["lhs"]["l"]] = 1
-                        elif v is not None and v[0] == "opt" and len(v) > 2 and ty.startswith("std::result::Result<"):
-                            dmap[s["lhs"]["l"]] = 0
+                        elif v is not None and v[0] == "opt" and len(v) > 2 and ty.startswith(("std::result::Result<", "std::ops::ControlFlow<")):
+                            dmap[s["lhs"]["l"]] = 0     # Ok / Continue
                         elif v is not None and v[0] == "nil" and ty.startswith("std::option::Option<"):
                             dmap[s["lhs"]["l"]] = 0
                 self.step_stmt(env, s)
@@ -503,6 +503,9 @@ def scanner_report(ctx, body):
                             try:
                                 g = norm(S.as_int(got))
                             except Unknown:
+                                import os
+                                if os.environ.get("BW_DEBUG_MODEL"):
+                                    print("affine: not affine:", what, got, "path", p, "ok_peek", ok_peek)
                                 out.append((None, "the %s is not an affine value" % what))
                                 continue
                             w = norm(want)
